@@ -87,12 +87,17 @@ def run_case(case, ctx):
         if case['route'] == 'api':
             with env.quiet():
                 with SgzConverter(sgz) as c:
-                    pre = ctx['rng'].choice(['none', 'none', 'tracefield', 'header', 'samples'])
+                    pre = ['none', 'tracefield', 'header', 'samples', 'selective-load', 'none'][int(case['id'].split(':')[1]) % 6]
                     # the exporter is also a reader: what was read through it before must not change what it exports
                     if pre == 'tracefield':
                         stored = [int(k) for k, v in c.segy_traceheader_template.items() if type(v).__name__ == 'FileOffset']
                         if stored:
                             c.get_tracefield_values(stored[0])
+                    elif pre == 'selective-load':
+                        # the documented way to load only some header arrays of a large file
+                        stored = [segyio.tracefield.TraceField(int(k)) for k, v in c.segy_traceheader_template.items() if type(v).__name__ == 'FileOffset']
+                        if stored:
+                            c.read_variant_headers(tracefields=stored[:1])
                     elif pre == 'header':
                         c.gen_trace_header(0)
                     elif pre == 'samples':
